@@ -319,6 +319,15 @@ class Dataflow:
                 is_eq = (e[1] == "Eq") == (truth == 1)
                 inner = ("in", frozenset([c[1]])) if is_eq else ("notin", frozenset([c[1]]))
                 return self.restrict(st, a, inner)
+        # a strict inequality that holds excludes the bound itself (sound weakening for every integer type)
+        if k == "bin" and e[1] in ("Lt", "Gt", "Le", "Ge") and new[0] == "in" and len(new[1]) == 1:
+            truth = next(iter(new[1]))
+            strict_holds = (e[1] in ("Lt", "Gt") and truth == 1) or (e[1] in ("Le", "Ge") and truth == 0)
+            a, c = e[2], e[3]
+            if a[0] == "const":
+                a, c = c, a
+            if strict_holds and c[0] == "const" and a[0] != "const":
+                return self.restrict(st, a, ("notin", frozenset([c[1]])))
         return st
 
     def kill_path(self, st, path):
@@ -360,7 +369,24 @@ class Dataflow:
             pl, rv = s[1], s[2]
             p = self.canon.path(pl)
             # a single-assignment alias temp never appears as a root; skip kill for speed if no key
+            carried = None
+            if rv[0] == "use" and rv[1][0] in ("c", "m") and st:
+                # `x = move y`: what is known about y (its variant, its constant fields) is now known about x
+                sp = self.canon.path(rv[1][1])
+                dp = p if pl[1] else (pl[0], ())
+                if sp != dp:
+                    n = len(sp[1])
+                    carried = [((k[0], (dp[0], dp[1] + k[1][1][n:])), v) for k, v in st.items()
+                               if k[0] in ("disc", "val") and k[1][0] == sp[0] and k[1][1][:n] == sp[1]]
             st = self.kill_path(st, p if pl[1] else (pl[0], ()))
+            if carried:
+                st = dict(st)
+                for k, v in carried:
+                    st[k] = v
+                    if k[0] == "disc":
+                        ty = self.disc_ty.get((sp[0], sp[1] + k[1][1][len(dp[1]):]))
+                        if ty is not None:
+                            self.disc_ty.setdefault(k[1], ty)
             if rv[0] == "ref" and rv[1] == "m":
                 st = self.kill_path(st, self.canon.path(rv[2]))
             if rv[0] == "use" and rv[1][0] == "k" and rv[1][1] == "int" and pl[1]:
